@@ -3,19 +3,477 @@ import PbVerif.Model.Perm
 namespace PbVerif.Lemmas
 open PbVerif.Perm
 
+/-! ### basic `takeL` facts -/
+
+theorem nodup_getElem_inj {α} {l : List α} (h : l.Nodup) {i j : Nat} (hi : i < l.length)
+    (hj : j < l.length) (e : l[i] = l[j]) : i = j := by
+  have h' := List.pairwise_iff_getElem.1 h
+  rcases Nat.lt_trichotomy i j with h1 | h1 | h1
+  · exact absurd e (h' i j hi hj h1)
+  · exact h1
+  · exact absurd e.symm (h' j i hj hi h1)
+
+@[simp] theorem takeL_length {α} (a : List α) (d : α) (idx : List Nat) :
+    (takeL a d idx).length = idx.length := by simp [takeL]
+
+theorem takeL_getElem {α} (a : List α) (d : α) (idx : List Nat) (i : Nat) (hi : i < idx.length) :
+    (takeL a d idx)[i]'(by simpa using hi) = a.getD idx[i] d := by simp [takeL]
+
+theorem takeL_range {α} (a : List α) (d : α) : takeL a d (List.range a.length) = a := by
+  apply List.ext_getElem
+  · simp
+  · intro i h1 h2
+    simp [takeL, List.getD_eq_getElem?_getD, h2]
+
+theorem takeL_takeL {α} (a : List α) (d : α) (π idx : List Nat) (h : ∀ i ∈ idx, i < π.length) :
+    takeL (takeL a d π) d idx = takeL a d (takeL π 0 idx) := by
+  unfold takeL
+  rw [List.map_map]
+  apply List.map_congr_left
+  intro i hi
+  have := h i hi
+  simp [List.getD_eq_getElem?_getD, this]
+
+theorem takeL_map {α β} (l : List α) (f : α → β) (d : α) (d' : β) (idx : List Nat)
+    (h : ∀ i ∈ idx, i < l.length) : takeL (l.map f) d' idx = (takeL l d idx).map f := by
+  unfold takeL
+  rw [List.map_map]
+  apply List.map_congr_left
+  intro i hi
+  have := h i hi
+  simp [List.getD_eq_getElem?_getD, this]
+
+theorem perm_range_lt {σ : List Nat} {n : Nat} (h : σ.Perm (List.range n)) : ∀ i ∈ σ, i < n := by
+  intro i hi
+  exact List.mem_range.1 (h.mem_iff.1 hi)
+
+theorem perm_range_nodup {σ : List Nat} {n : Nat} (h : σ.Perm (List.range n)) : σ.Nodup :=
+  h.nodup_iff.2 List.nodup_range
+
+theorem perm_range_length {σ : List Nat} {n : Nat} (h : σ.Perm (List.range n)) : σ.length = n := by
+  simpa using h.length_eq
+
+theorem takeL_perm {α} (a : List α) (d : α) (τ : List Nat) (h : τ.Perm (List.range a.length)) :
+    (takeL a d τ).Perm a := by
+  have := h.map (fun i => a.getD i d)
+  have e := takeL_range a d
+  unfold takeL at *
+  rwa [e] at this
+
+
+/-! ### `invertedSort` -/
+
+theorem scatterUpTo_length (σ : List Nat) (k : Nat) : (scatterUpTo σ k).length = σ.length := by
+  induction k with
+  | zero => simp [scatterUpTo]
+  | succ k ih => simp [scatterUpTo, ih]
+
+theorem scatterUpTo_spec (σ : List Nat) (hn : σ.Nodup) (hlt : ∀ i ∈ σ, i < σ.length) (k : Nat)
+    (hk : k ≤ σ.length) (i : Nat) (hi : i < k) :
+    (scatterUpTo σ k).getD (σ.getD i 0) 0 = i := by
+  induction k with
+  | zero => omega
+  | succ k ih =>
+    have hkl : k < σ.length := by omega
+    have hil : i < σ.length := by omega
+    simp only [scatterUpTo, List.getD_eq_getElem?_getD]
+    by_cases hik : i = k
+    · subst hik
+      have : σ[i] < (scatterUpTo σ i).length := by
+        rw [scatterUpTo_length]; exact hlt _ (List.getElem_mem _)
+      simp [hil, this]
+    · have hne : σ[k] ≠ σ[i] := fun e => hik (nodup_getElem_inj hn hil hkl e.symm)
+      have := ih (by omega) (by omega)
+      simp only [List.getD_eq_getElem?_getD] at this
+      simp only [List.getElem?_eq_getElem hkl, List.getElem?_eq_getElem hil, Option.getD_some] at this ⊢
+      rw [List.getElem?_set_ne hne]
+      exact this
+
+theorem invertedSort_length (σ : List Nat) : (invertedSort σ).length = σ.length :=
+  scatterUpTo_length σ σ.length
+
 theorem invertedSort_left (σ : List Nat) (hσ : σ.Perm (List.range σ.length)) (i : Nat) (hi : i < σ.length) :
-    (invertedSort σ).getD (σ.getD i 0) 0 = i := by sorry
+    (invertedSort σ).getD (σ.getD i 0) 0 = i :=
+  scatterUpTo_spec σ (perm_range_nodup hσ) (perm_range_lt hσ) σ.length (Nat.le_refl _) i hi
+
+/-- every `j < n` is `σ[k]` for some `k < n` -/
+theorem perm_range_surj {σ : List Nat} (hσ : σ.Perm (List.range σ.length)) {j : Nat} (hj : j < σ.length) :
+    ∃ k, ∃ hk : k < σ.length, σ[k] = j := by
+  have : j ∈ σ := hσ.mem_iff.2 (List.mem_range.2 hj)
+  obtain ⟨k, hk, e⟩ := List.getElem_of_mem this
+  exact ⟨k, hk, e⟩
+
+theorem invertedSort_right (σ : List Nat) (hσ : σ.Perm (List.range σ.length)) (j : Nat) (hj : j < σ.length) :
+    (invertedSort σ).getD j 0 < σ.length ∧ σ.getD ((invertedSort σ).getD j 0) 0 = j := by
+  obtain ⟨k, hk, e⟩ := perm_range_surj hσ hj
+  have := invertedSort_left σ hσ k hk
+  simp only [List.getD_eq_getElem?_getD, List.getElem?_eq_getElem hk, Option.getD_some, e] at this
+  simp only [List.getD_eq_getElem?_getD, this]
+  simp [hk, e]
+
+theorem invertedSort_lt (σ : List Nat) (hσ : σ.Perm (List.range σ.length)) :
+    ∀ i ∈ invertedSort σ, i < σ.length := by
+  intro i hi
+  obtain ⟨j, hj, e⟩ := List.getElem_of_mem hi
+  have hj' : j < σ.length := by rwa [invertedSort_length] at hj
+  have := (invertedSort_right σ hσ j hj').1
+  simpa [List.getD_eq_getElem?_getD, hj, e] using this
 
 theorem take_take_inverted {α} (a : List α) (d : α) (σ : List Nat) (hσ : σ.Perm (List.range σ.length))
-    (ha : a.length = σ.length) : takeL (takeL a d σ) d (invertedSort σ) = a := by sorry
+    (ha : a.length = σ.length) : takeL (takeL a d σ) d (invertedSort σ) = a := by
+  rw [takeL_takeL _ _ _ _ (invertedSort_lt σ hσ)]
+  apply List.ext_getElem
+  · simp [invertedSort_length, ha]
+  · intro j h1 h2
+    have hj : j < σ.length := by omega
+    have hj' : j < (invertedSort σ).length := by rw [invertedSort_length]; exact hj
+    have := (invertedSort_right σ hσ j hj).2
+    simp only [List.getD_eq_getElem?_getD, List.getElem?_eq_getElem hj', Option.getD_some] at this
+    simp [takeL, List.getD_eq_getElem?_getD, this, h2]
 
 theorem take_inverted_take {α} (a : List α) (d : α) (σ : List Nat) (hσ : σ.Perm (List.range σ.length))
-    (ha : a.length = σ.length) : takeL (takeL a d (invertedSort σ)) d σ = a := by sorry
+    (ha : a.length = σ.length) : takeL (takeL a d (invertedSort σ)) d σ = a := by
+  rw [takeL_takeL _ _ _ _ (by rw [invertedSort_length]; exact perm_range_lt hσ)]
+  apply List.ext_getElem
+  · simp [ha]
+  · intro j h1 h2
+    have hj : j < σ.length := by omega
+    have := invertedSort_left σ hσ j hj
+    simp only [List.getD_eq_getElem?_getD, List.getElem?_eq_getElem hj, Option.getD_some] at this
+    simp [takeL, List.getD_eq_getElem?_getD, this, h2]
 
-theorem argsort_perm (x : List Rat) : (argsort x).Perm (List.range x.length) := by sorry
-theorem argsort_sorted (x : List Rat) : (takeL x 0 (argsort x)).Pairwise (· ≤ ·) := by sorry
 
-theorem determineSorts_none_iff (x : List Rat) : determineSorts x = none ↔ x.Pairwise (· ≤ ·) := by sorry
+/-! ### `argsort` -/
+
+/-- strict lexicographic order on (key, index) pairs -/
+def lexLt (p q : Rat × Nat) : Prop := p.1 < q.1 ∨ (p.1 = q.1 ∧ p.2 < q.2)
+
+theorem insertP_perm (p : Rat × Nat) (l : List (Rat × Nat)) : (insertP p l).Perm (p :: l) := by
+  induction l with
+  | nil => simp [insertP]
+  | cons q t ih =>
+    simp only [insertP]
+    split
+    · exact List.Perm.refl _
+    · exact (List.Perm.cons q ih).trans (List.Perm.swap p q t)
+
+theorem insertP_sorted (p : Rat × Nat) (l : List (Rat × Nat)) (hl : l.Pairwise lexLt)
+    (hp : ∀ q ∈ l, q.2 < p.2) : (insertP p l).Pairwise lexLt := by
+  induction l with
+  | nil => simp [insertP]
+  | cons q t ih =>
+    simp only [insertP]
+    have hq := List.pairwise_cons.1 hl
+    split
+    · rename_i hlt
+      refine List.pairwise_cons.2 ⟨?_, hl⟩
+      intro r hr
+      rcases List.mem_cons.1 hr with rfl | hr
+      · exact Or.inl hlt
+      · rcases hq.1 r hr with h | ⟨h1, _⟩
+        · exact Or.inl (Std.lt_trans hlt h)
+        · exact Or.inl (h1 ▸ hlt)
+    · rename_i hnlt
+      refine List.pairwise_cons.2 ⟨?_, ih hq.2 (fun r hr => hp r (List.mem_cons_of_mem _ hr))⟩
+      intro r hr
+      rcases List.mem_cons.1 ((insertP_perm p t).mem_iff.1 hr) with rfl | hr
+      · have hle : q.1 ≤ r.1 := Rat.not_lt.1 hnlt
+        rcases Rat.le_iff_lt_or_eq.1 hle with h | h
+        · exact Or.inl h
+        · exact Or.inr ⟨h, hp q (List.mem_cons_self ..)⟩
+      · exact hq.1 r hr
+
+theorem foldl_insertP (l acc : List (Rat × Nat)) (hacc : acc.Pairwise lexLt)
+    (hlt : ∀ q ∈ acc, ∀ p ∈ l, q.2 < p.2) (hl : l.Pairwise (fun p q => p.2 < q.2)) :
+    (l.foldl (fun acc p => insertP p acc) acc).Pairwise lexLt ∧
+    (l.foldl (fun acc p => insertP p acc) acc).Perm (acc ++ l) := by
+  induction l generalizing acc with
+  | nil => simpa using hacc
+  | cons p t ih =>
+    simp only [List.foldl_cons]
+    have hp := List.pairwise_cons.1 hl
+    have := ih (insertP p acc)
+      (insertP_sorted p acc hacc (fun q hq => hlt q hq p (List.mem_cons_self ..)))
+      (by
+        intro q hq r hr
+        rcases List.mem_cons.1 ((insertP_perm p acc).mem_iff.1 hq) with rfl | hq
+        · exact hp.1 r hr
+        · exact hlt q hq r (List.mem_cons_of_mem _ hr))
+      hp.2
+    refine ⟨this.1, this.2.trans ?_⟩
+    have h1 : (insertP p acc ++ t).Perm ((p :: acc) ++ t) := (insertP_perm p acc).append_right t
+    refine h1.trans ?_
+    simpa using (List.perm_middle (a := p) (l₁ := acc) (l₂ := t)).symm
+
+/-- the sorted list of (key, index) pairs whose second components are `argsort x` -/
+def sortedPairs (x : List Rat) : List (Rat × Nat) := (x.zipIdx).foldl (fun acc p => insertP p acc) []
+
+theorem argsort_eq (x : List Rat) : argsort x = (sortedPairs x).map (·.2) := rfl
+
+theorem sortedPairs_spec (x : List Rat) :
+    (sortedPairs x).Pairwise lexLt ∧ (sortedPairs x).Perm x.zipIdx := by
+  have := foldl_insertP x.zipIdx [] List.Pairwise.nil (by simp)
+    (by
+      have h : (x.zipIdx.map Prod.snd).Pairwise (· < ·) := by
+        rw [List.zipIdx_map_snd]; exact List.pairwise_lt_range' 
+      exact List.pairwise_map.1 h)
+  simpa [sortedPairs] using this
+
+theorem sortedPairs_mem (x : List Rat) {p : Rat × Nat} (hp : p ∈ sortedPairs x) :
+    p.2 < x.length ∧ x.getD p.2 0 = p.1 := by
+  have := (sortedPairs_spec x).2.mem_iff.1 hp
+  have := List.mem_zipIdx (x := p.1) (i := p.2) this
+  simp only [List.getD_eq_getElem?_getD]
+  have h : p.2 < x.length := by omega
+  simp [h, this.2.2]
+
+theorem argsort_perm (x : List Rat) : (argsort x).Perm (List.range x.length) := by
+  rw [argsort_eq]
+  have := (sortedPairs_spec x).2.map Prod.snd
+  rwa [List.zipIdx_map_snd, ← List.range_eq_range'] at this
+
+theorem takeL_argsort (x : List Rat) : takeL x 0 (argsort x) = (sortedPairs x).map (·.1) := by
+  rw [argsort_eq, takeL, List.map_map]
+  apply List.map_congr_left
+  intro p hp
+  exact (sortedPairs_mem x hp).2
+
+theorem argsort_sorted (x : List Rat) : (takeL x 0 (argsort x)).Pairwise (· ≤ ·) := by
+  rw [takeL_argsort, List.pairwise_map]
+  refine (sortedPairs_spec x).1.imp ?_
+  intro p q h
+  rcases h with h | ⟨h, _⟩
+  · exact Rat.le_of_lt h
+  · exact h ▸ Rat.le_refl
+
+
+/-! ### `determineSorts` -/
+
+theorem strictlyIncreasing_iff (σ : List Nat) : strictlyIncreasing σ = true ↔ σ.Pairwise (· < ·) := by
+  induction σ with
+  | nil => simp [strictlyIncreasing]
+  | cons a t ih =>
+    cases t with
+    | nil => simp [strictlyIncreasing]
+    | cons b t =>
+      simp only [strictlyIncreasing, Bool.and_eq_true, decide_eq_true_eq, ih]
+      constructor
+      · rintro ⟨hab, hb⟩
+        refine List.pairwise_cons.2 ⟨?_, hb⟩
+        intro c hc
+        rcases List.mem_cons.1 hc with rfl | hc
+        · exact hab
+        · exact Nat.lt_trans hab ((List.pairwise_cons.1 hb).1 c hc)
+      · intro h
+        have := List.pairwise_cons.1 h
+        exact ⟨this.1 b (List.mem_cons_self ..), this.2⟩
+
+theorem eq_range_of_pairwise_lt {σ : List Nat} {n : Nat} (hσ : σ.Perm (List.range n))
+    (h : σ.Pairwise (· < ·)) : σ = List.range n :=
+  List.Perm.eq_of_pairwise (fun a b _ _ h1 h2 => by omega) h List.pairwise_lt_range hσ
+
+theorem determineSorts_none_iff' (x : List Rat) :
+    determineSorts x = none ↔ strictlyIncreasing (argsort x) = true := by
+  unfold determineSorts
+  simp only []
+  split <;> simp_all
+
+theorem argsort_of_sorted (x : List Rat) (hx : x.Pairwise (· ≤ ·)) : argsort x = List.range x.length := by
+  apply eq_range_of_pairwise_lt (argsort_perm x)
+  rw [argsort_eq, List.pairwise_map]
+  refine (sortedPairs_spec x).1.imp_of_mem ?_
+  intro p q hp hq h
+  obtain ⟨hp1, hp2⟩ := sortedPairs_mem x hp
+  obtain ⟨hq1, hq2⟩ := sortedPairs_mem x hq
+  rcases h with h | ⟨_, h⟩
+  · refine Nat.lt_of_not_le (fun hle => ?_)
+    have : x.getD q.2 0 ≤ x.getD p.2 0 := by
+      rcases Nat.lt_or_eq_of_le hle with hlt | heq
+      · have := List.pairwise_iff_getElem.1 hx q.2 p.2 hq1 hp1 hlt
+        simpa [List.getD_eq_getElem?_getD, hq1, hp1] using this
+      · rw [heq]; exact Rat.le_refl
+    rw [hp2, hq2] at this
+    exact absurd h (Rat.not_lt.2 this)
+  · exact h
+
+theorem determineSorts_none_iff (x : List Rat) : determineSorts x = none ↔ x.Pairwise (· ≤ ·) := by
+  rw [determineSorts_none_iff', strictlyIncreasing_iff]
+  constructor
+  · intro h
+    have e := eq_range_of_pairwise_lt (argsort_perm x) h
+    have := argsort_sorted x
+    rwa [e, takeL_range] at this
+  · intro h
+    rw [argsort_of_sorted x h]
+    exact List.pairwise_lt_range
+
+/-! ### `extendSortOrder` -/
+
+theorem perm_range_of_perm {l : List Nat} {m : Nat} (h : l.Perm (List.range m)) :
+    l.Perm (List.range l.length) := by
+  rwa [perm_range_length h]
+
+theorem extendSortOrder_perm (σ : List Nat) (side k : Nat) (hσ : σ.Perm (List.range σ.length)) :
+    (extendSortOrder σ side k).Perm (List.range (extendSortOrder σ side k).length) := by
+  have h1 : (List.range k ++ σ.map (· + k)).Perm (List.range (k + σ.length)) := by
+    rw [List.range_add]
+    refine List.Perm.append (List.Perm.refl _) ?_
+    have := hσ.map (· + k)
+    refine this.trans (List.Perm.of_eq ?_)
+    exact List.map_congr_left (fun a _ => Nat.add_comm a k)
+  unfold extendSortOrder
+  simp only []
+  split
+  · exact perm_range_of_perm h1
+  · apply perm_range_of_perm (m := σ.length + k)
+    rw [List.range_add]
+    refine List.Perm.append hσ (List.Perm.of_eq ?_)
+    exact List.map_congr_left (fun a _ => Nat.add_comm a _)
+  · apply perm_range_of_perm (m := (k + σ.length) + k)
+    rw [List.range_add]
+    refine List.Perm.append h1 (List.Perm.of_eq ?_)
+    exact List.map_congr_left (fun a _ => by omega)
+
+theorem extendSortOrder_left (σ : List Nat) (k i : Nat) (hi : i < k) :
+    (extendSortOrder σ 1 k).getD i 0 = i ∧ (extendSortOrder σ 0 k).getD i 0 = i := by
+  simp [extendSortOrder, List.getD_eq_getElem?_getD, List.getElem?_append, hi]
+
+theorem extendSortOrder_mid (σ : List Nat) (k i : Nat) (hi : i < σ.length) :
+    (extendSortOrder σ 1 k).getD (k + i) 0 = σ.getD i 0 + k ∧
+    (extendSortOrder σ 0 k).getD (k + i) 0 = σ.getD i 0 + k ∧
+    (extendSortOrder σ 2 k).getD i 0 = σ.getD i 0 := by
+  have : ¬ (k + i < k) := by omega
+  simp [extendSortOrder, List.getD_eq_getElem?_getD, List.getElem?_append, hi, this]
+
+
+/-! ### equivariance, 1-D -/
+
+theorem takeL_range' {α} (a : List α) (d : α) (n : Nat) (h : a.length = n) :
+    takeL a d (List.range n) = a := by subst h; exact takeL_range a d
+
+theorem perm_range_self {σ : List Nat} {n : Nat} (h : σ.Perm (List.range n)) :
+    σ.Perm (List.range σ.length) := by rwa [perm_range_length h]
+
+theorem invertedSort_left' {σ : List Nat} {n : Nat} (hσ : σ.Perm (List.range n)) (k : Nat)
+    (hk : k < σ.length) : (invertedSort σ).getD σ[k] 0 = k := by
+  have := invertedSort_left σ (perm_range_self hσ) k hk
+  simpa [List.getD_eq_getElem?_getD, hk] using this
+
+theorem invertedSort_range (n : Nat) : invertedSort (List.range n) = List.range n := by
+  apply List.ext_getElem
+  · simp [invertedSort_length]
+  · intro i h1 h2
+    have hi : i < (List.range n).length := by simpa using h2
+    have := invertedSort_left' (σ := List.range n) (List.Perm.refl _) i hi
+    simpa [List.getD_eq_getElem?_getD, h1] using this
+
+theorem determineSorts_cases (x : List Rat) :
+    (determineSorts x = none ∧ argsort x = List.range x.length) ∨
+    determineSorts x = some (argsort x, invertedSort (argsort x)) := by
+  by_cases h : strictlyIncreasing (argsort x) = true
+  · left
+    exact ⟨(determineSorts_none_iff' x).2 h,
+      eq_range_of_pairwise_lt (argsort_perm x) ((strictlyIncreasing_iff _).1 h)⟩
+  · right
+    unfold determineSorts
+    simp only []
+    rw [if_neg h]
+
+theorem sortArray_fst {α} (x : List Rat) (a : List α) (d : α) (ha : a.length = x.length) :
+    sortArray a d ((determineSorts x).map (·.1)) = takeL a d (argsort x) := by
+  rcases determineSorts_cases x with ⟨h, e⟩ | h
+  · rw [h, e, takeL_range' a d _ ha]; rfl
+  · rw [h]; rfl
+
+theorem sortArray_snd {α} (x : List Rat) (a : List α) (d : α) (ha : a.length = x.length) :
+    sortArray a d ((determineSorts x).map (·.2)) = takeL a d (invertedSort (argsort x)) := by
+  rcases determineSorts_cases x with ⟨h, e⟩ | h
+  · rw [h, e, invertedSort_range, takeL_range' a d _ ha]; rfl
+  · rw [h]; rfl
+
+theorem map_takeL_range {α} (l : List (List α)) (d : α) (n : Nat) (h : ∀ a ∈ l, a.length = n) :
+    l.map (takeL · d (List.range n)) = l := by
+  conv => rhs; rw [← List.map_id l]
+  exact List.map_congr_left (fun a ha => takeL_range' a d n (h a ha))
+
+theorem optmap_takeL_range {α} (w : Option (List α)) (d : α) (n : Nat) (h : ∀ v, w = some v → v.length = n) :
+    w.map (takeL · d (List.range n)) = w := by
+  cases w with
+  | none => rfl
+  | some v => simp [takeL_range' v d n (h v rfl)]
+
+/-- `run1d` always behaves as if it sorted with `argsort x` (also when the sort is skipped) -/
+theorem run1d_normal
+    (core : List Rat → List Rat → Option (List Rat) → List Rat × List (List Rat))
+    (hcore : ∀ xs ys ws, (core xs ys ws).1.length = xs.length ∧ ∀ a ∈ (core xs ys ws).2, a.length = xs.length)
+    (x y : List Rat) (w : Option (List Rat))
+    (hy : y.length = x.length) (hw : ∀ v, w = some v → v.length = x.length) :
+    run1d core x y w =
+      (takeL (core (takeL x 0 (argsort x)) (takeL y 0 (argsort x)) (w.map (takeL · 0 (argsort x)))).1 0
+          (invertedSort (argsort x)),
+       (core (takeL x 0 (argsort x)) (takeL y 0 (argsort x)) (w.map (takeL · 0 (argsort x)))).2.map
+          (takeL · 0 (invertedSort (argsort x)))) := by
+  unfold run1d
+  rcases determineSorts_cases x with ⟨h, e⟩ | h
+  · rw [h, e, invertedSort_range, takeL_range, takeL_range' y 0 _ hy, optmap_takeL_range w 0 _ hw]
+    simp only []
+    rw [takeL_range' _ 0 _ (hcore x y w).1, map_takeL_range _ 0 _ (hcore x y w).2]
+  · rw [h]
+
+theorem takeL_inj (x : List Rat) (hx : x.Nodup) (τ₁ τ₂ : List Nat)
+    (h₁ : ∀ i ∈ τ₁, i < x.length) (h₂ : ∀ i ∈ τ₂, i < x.length)
+    (h : takeL x 0 τ₁ = takeL x 0 τ₂) : τ₁ = τ₂ := by
+  have hlen : τ₁.length = τ₂.length := by simpa using congrArg List.length h
+  apply List.ext_getElem hlen
+  intro i hi1 hi2
+  have e : (takeL x 0 τ₁)[i]'(by simpa using hi1) = (takeL x 0 τ₂)[i]'(by simpa using hi2) := by
+    simp only [h]
+  rw [takeL_getElem _ _ _ _ hi1, takeL_getElem _ _ _ _ hi2] at e
+  have l1 := h₁ _ (List.getElem_mem hi1)
+  have l2 := h₂ _ (List.getElem_mem hi2)
+  simp only [List.getD_eq_getElem?_getD, List.getElem?_eq_getElem l1, List.getElem?_eq_getElem l2,
+    Option.getD_some] at e
+  exact nodup_getElem_inj hx l1 l2 e
+
+/-- Key fact: sorting the permuted array composes with the permutation to the original order. -/
+theorem argsort_takeL (x : List Rat) (hx : x.Nodup) (π : List Nat) (hπ : π.Perm (List.range x.length)) :
+    takeL π 0 (argsort (takeL x 0 π)) = argsort x := by
+  have hπl : π.length = x.length := perm_range_length hπ
+  have hσ' : (argsort (takeL x 0 π)).Perm (List.range π.length) := by
+    simpa using argsort_perm (takeL x 0 π)
+  have hτ : (takeL π 0 (argsort (takeL x 0 π))).Perm (List.range x.length) :=
+    (takeL_perm π 0 _ hσ').trans hπ
+  apply takeL_inj x hx _ _ (perm_range_lt hτ) (perm_range_lt (argsort_perm x))
+  have e : takeL x 0 (takeL π 0 (argsort (takeL x 0 π))) =
+      takeL (takeL x 0 π) 0 (argsort (takeL x 0 π)) :=
+    (takeL_takeL x 0 π _ (perm_range_lt hσ')).symm
+  refine List.Perm.eq_of_pairwise (le := (· ≤ ·)) (fun a b _ _ h1 h2 => Rat.le_antisymm h1 h2) ?_
+    (argsort_sorted x) ((takeL_perm x 0 _ hτ).trans (takeL_perm x 0 _ (argsort_perm x)).symm)
+  rw [e]
+  exact argsort_sorted _
+
+theorem invertedSort_comp (σ σ' π : List Nat) (n : Nat) (hσ : σ.Perm (List.range n))
+    (hσ' : σ'.Perm (List.range n)) (hπ : π.Perm (List.range n)) (h : takeL π 0 σ' = σ) :
+    invertedSort σ' = takeL (invertedSort σ) 0 π := by
+  have lσ := perm_range_length hσ
+  have lσ' := perm_range_length hσ'
+  have lπ := perm_range_length hπ
+  apply List.ext_getElem
+  · simp [invertedSort_length, lσ', lπ]
+  · intro j h1 h2
+    have hj : j < σ'.length := by rwa [invertedSort_length] at h1
+    obtain ⟨k, hk, e⟩ := perm_range_surj (perm_range_self hσ') hj
+    have hkσ : k < σ.length := by omega
+    have hjπ : j < π.length := by omega
+    have L := invertedSort_left' hσ' k hk
+    have R := invertedSort_left' hσ k hkσ
+    have hσk : σ[k] = π[j] := by
+      subst h
+      rw [takeL_getElem _ _ _ _ hk]
+      simp [List.getD_eq_getElem?_getD, e, hjπ]
+    rw [takeL_getElem _ _ _ _ hjπ, ← hσk, R]
+    rw [e] at L
+    simpa [List.getD_eq_getElem?_getD, h1] using L
 
 theorem run1d_equivariant
     (core : List Rat → List Rat → Option (List Rat) → List Rat × List (List Rat))
@@ -24,7 +482,140 @@ theorem run1d_equivariant
     (hx : x.Nodup) (hy : y.length = x.length) (hw : ∀ v, w = some v → v.length = x.length)
     (hπ : π.Perm (List.range x.length)) :
     run1d core (takeL x 0 π) (takeL y 0 π) (w.map (takeL · 0 π)) =
-      ((takeL (run1d core x y w).1 0 π), (run1d core x y w).2.map (takeL · 0 π)) := by sorry
+      ((takeL (run1d core x y w).1 0 π), (run1d core x y w).2.map (takeL · 0 π)) := by
+  have hπl : π.length = x.length := perm_range_length hπ
+  have hσ' : (argsort (takeL x 0 π)).Perm (List.range π.length) := by
+    simpa using argsort_perm (takeL x 0 π)
+  have hσ'lt := perm_range_lt hσ'
+  have key := argsort_takeL x hx π hπ
+  rw [run1d_normal core hcore x y w hy hw,
+    run1d_normal core hcore (takeL x 0 π) (takeL y 0 π) (w.map (takeL · 0 π)) (by simp)
+      (by
+        intro v hv
+        cases w with
+        | none => simp at hv
+        | some u => simp at hv; subst hv; simp)]
+  have ex : takeL (takeL x 0 π) 0 (argsort (takeL x 0 π)) = takeL x 0 (argsort x) := by
+    rw [takeL_takeL _ _ _ _ hσ'lt, key]
+  have ey : takeL (takeL y 0 π) 0 (argsort (takeL x 0 π)) = takeL y 0 (argsort x) := by
+    rw [takeL_takeL _ _ _ _ hσ'lt, key]
+  have ew : (w.map (takeL · 0 π)).map (takeL · 0 (argsort (takeL x 0 π))) =
+      w.map (takeL · 0 (argsort x)) := by
+    cases w with
+    | none => rfl
+    | some u => simp only [Option.map_some]; rw [takeL_takeL _ _ _ _ hσ'lt, key]
+  have einv : invertedSort (argsort (takeL x 0 π)) = takeL (invertedSort (argsort x)) 0 π :=
+    invertedSort_comp _ _ π x.length (argsort_perm x) (hπl ▸ hσ') hπ key
+  have hπlt : ∀ i ∈ π, i < (invertedSort (argsort x)).length := by
+    rw [invertedSort_length, perm_range_length (argsort_perm x)]
+    exact perm_range_lt hπ
+  rw [ex, ey, ew, einv]
+  simp only []
+  rw [takeL_takeL _ _ _ _ hπlt, List.map_map]
+  congr 1
+  apply List.map_congr_left
+  intro a _
+  exact (takeL_takeL _ _ _ _ hπlt).symm
+
+
+/-! ### equivariance, 2-D -/
+
+theorem mem_takeL {α} {a : List α} {d : α} {idx : List Nat} (h : ∀ i ∈ idx, i < a.length)
+    {r : α} (hr : r ∈ takeL a d idx) : r ∈ a := by
+  unfold takeL at hr
+  obtain ⟨i, hi, rfl⟩ := List.mem_map.1 hr
+  have := h i hi
+  simp [List.getD_eq_getElem?_getD, this]
+
+theorem sort2d_some (m : List (List Rat)) (τx τz : List Nat) :
+    sort2d m (some τx) (some τz) = (takeL m [] τx).map (takeL · 0 τz) := rfl
+
+theorem sort2d_dims (m : List (List Rat)) (τx τz : List Nat) :
+    (sort2d m (some τx) (some τz)).length = τx.length ∧
+    ∀ row ∈ sort2d m (some τx) (some τz), row.length = τz.length := by
+  rw [sort2d_some]
+  refine ⟨by simp, ?_⟩
+  intro row hrow
+  obtain ⟨r, _, rfl⟩ := List.mem_map.1 hrow
+  simp
+
+theorem sort2d_comp (m : List (List Rat)) (π₁ π₂ τ₁ τ₂ : List Nat)
+    (h₁ : ∀ i ∈ τ₁, i < π₁.length) (h₂ : ∀ i ∈ τ₂, i < π₂.length) :
+    sort2d (sort2d m (some π₁) (some π₂)) (some τ₁) (some τ₂) =
+      sort2d m (some (takeL π₁ 0 τ₁)) (some (takeL π₂ 0 τ₂)) := by
+  simp only [sort2d_some]
+  rw [takeL_map (takeL m [] π₁) (takeL · 0 π₂) [] [] τ₁ (by simpa using h₁),
+    takeL_takeL _ _ _ _ h₁, List.map_map]
+  apply List.map_congr_left
+  intro row _
+  exact takeL_takeL _ _ _ _ h₂
+
+theorem sort2d_fst (x z : List Rat) (m : List (List Rat)) (hm : m.length = x.length)
+    (hrow : ∀ row ∈ m, row.length = z.length) :
+    sort2d m ((determineSorts x).map (·.1)) ((determineSorts z).map (·.1)) =
+      sort2d m (some (argsort x)) (some (argsort z)) := by
+  unfold sort2d
+  rw [sortArray_fst x m [] hm]
+  apply List.map_congr_left
+  intro row hr
+  have : row ∈ m := mem_takeL (by rw [hm]; exact perm_range_lt (argsort_perm x)) hr
+  exact sortArray_fst z row 0 (hrow row this)
+
+theorem sort2d_snd (x z : List Rat) (m : List (List Rat)) (hm : m.length = x.length)
+    (hrow : ∀ row ∈ m, row.length = z.length) :
+    sort2d m ((determineSorts x).map (·.2)) ((determineSorts z).map (·.2)) =
+      sort2d m (some (invertedSort (argsort x))) (some (invertedSort (argsort z))) := by
+  unfold sort2d
+  rw [sortArray_snd x m [] hm]
+  apply List.map_congr_left
+  intro row hr
+  have : row ∈ m := mem_takeL (by
+    rw [hm]
+    have := invertedSort_lt _ (perm_range_self (argsort_perm x))
+    rwa [perm_range_length (argsort_perm x)] at this) hr
+  exact sortArray_snd z row 0 (hrow row this)
+
+/-- the arguments handed to `core` by `run2d`, in normal form -/
+def core2dArgs (core : List Rat → List Rat → List (List Rat) → Option (List (List Rat)) →
+      List (List Rat) × List (List (List Rat)))
+    (x z : List Rat) (y : List (List Rat)) (w : Option (List (List Rat))) :=
+  core (takeL x 0 (argsort x)) (takeL z 0 (argsort z))
+    (sort2d y (some (argsort x)) (some (argsort z)))
+    (w.map (sort2d · (some (argsort x)) (some (argsort z))))
+
+theorem run2d_normal
+    (core : List Rat → List Rat → List (List Rat) → Option (List (List Rat)) →
+      List (List Rat) × List (List (List Rat)))
+    (hcore : ∀ xs zs ys ws, let r := core xs zs ys ws
+        (r.1.length = xs.length ∧ ∀ row ∈ r.1, row.length = zs.length) ∧
+        ∀ a ∈ r.2, a.length = xs.length ∧ ∀ row ∈ a, row.length = zs.length)
+    (x z : List Rat) (y : List (List Rat)) (w : Option (List (List Rat)))
+    (hy : y.length = x.length ∧ ∀ row ∈ y, row.length = z.length)
+    (hw : ∀ v, w = some v → v.length = x.length ∧ ∀ row ∈ v, row.length = z.length) :
+    run2d core x z y w =
+      (sort2d (core2dArgs core x z y w).1 (some (invertedSort (argsort x))) (some (invertedSort (argsort z))),
+       (core2dArgs core x z y w).2.map
+         (sort2d · (some (invertedSort (argsort x))) (some (invertedSort (argsort z))))) := by
+  have ew : w.map (sort2d · ((determineSorts x).map (·.1)) ((determineSorts z).map (·.1))) =
+      w.map (sort2d · (some (argsort x)) (some (argsort z))) := by
+    cases w with
+    | none => rfl
+    | some v =>
+      simp only [Option.map_some]
+      rw [sort2d_fst x z v (hw v rfl).1 (hw v rfl).2]
+  unfold run2d
+  simp only []
+  rw [sortArray_fst x x 0 rfl, sortArray_fst z z 0 rfl, sort2d_fst x z y hy.1 hy.2, ew]
+  have hc := hcore (takeL x 0 (argsort x)) (takeL z 0 (argsort z))
+    (sort2d y (some (argsort x)) (some (argsort z)))
+    (w.map (sort2d · (some (argsort x)) (some (argsort z))))
+  simp only [takeL_length, perm_range_length (argsort_perm x), perm_range_length (argsort_perm z)] at hc
+  unfold core2dArgs
+  rw [sort2d_snd x z _ hc.1.1 hc.1.2]
+  congr 1
+  apply List.map_congr_left
+  intro a ha
+  exact sort2d_snd x z a (hc.2 a ha).1 (hc.2 a ha).2
 
 theorem run2d_equivariant
     (core : List Rat → List Rat → List (List Rat) → Option (List (List Rat)) →
@@ -40,16 +631,59 @@ theorem run2d_equivariant
     run2d core (takeL x 0 πx) (takeL z 0 πz) (sort2d y (some πx) (some πz))
         (w.map (sort2d · (some πx) (some πz))) =
       (sort2d (run2d core x z y w).1 (some πx) (some πz),
-       (run2d core x z y w).2.map (sort2d · (some πx) (some πz))) := by sorry
-
-theorem extendSortOrder_perm (σ : List Nat) (side k : Nat) (hσ : σ.Perm (List.range σ.length)) :
-    (extendSortOrder σ side k).Perm (List.range (extendSortOrder σ side k).length) := by sorry
-
-theorem extendSortOrder_left (σ : List Nat) (k i : Nat) (hi : i < k) :
-    (extendSortOrder σ 1 k).getD i 0 = i ∧ (extendSortOrder σ 0 k).getD i 0 = i := by sorry
-theorem extendSortOrder_mid (σ : List Nat) (k i : Nat) (hi : i < σ.length) :
-    (extendSortOrder σ 1 k).getD (k + i) 0 = σ.getD i 0 + k ∧
-    (extendSortOrder σ 0 k).getD (k + i) 0 = σ.getD i 0 + k ∧
-    (extendSortOrder σ 2 k).getD i 0 = σ.getD i 0 := by sorry
+       (run2d core x z y w).2.map (sort2d · (some πx) (some πz))) := by
+  have hπxl : πx.length = x.length := perm_range_length hπx
+  have hπzl : πz.length = z.length := perm_range_length hπz
+  have hσx' : (argsort (takeL x 0 πx)).Perm (List.range πx.length) := by
+    simpa using argsort_perm (takeL x 0 πx)
+  have hσz' : (argsort (takeL z 0 πz)).Perm (List.range πz.length) := by
+    simpa using argsort_perm (takeL z 0 πz)
+  have hσx'lt := perm_range_lt hσx'
+  have hσz'lt := perm_range_lt hσz'
+  have keyx := argsort_takeL x hx πx hπx
+  have keyz := argsort_takeL z hz πz hπz
+  have hy' : (sort2d y (some πx) (some πz)).length = (takeL x 0 πx).length ∧
+      ∀ row ∈ sort2d y (some πx) (some πz), row.length = (takeL z 0 πz).length := by
+    simpa using sort2d_dims y πx πz
+  have hw' : ∀ v, w.map (sort2d · (some πx) (some πz)) = some v →
+      v.length = (takeL x 0 πx).length ∧ ∀ row ∈ v, row.length = (takeL z 0 πz).length := by
+    intro v hv
+    cases w with
+    | none => simp at hv
+    | some u =>
+      simp only [Option.map_some, Option.some.injEq] at hv
+      subst hv
+      simpa using sort2d_dims u πx πz
+  rw [run2d_normal core hcore x z y w hy hw, run2d_normal core hcore _ _ _ _ hy' hw']
+  have eargs : core2dArgs core (takeL x 0 πx) (takeL z 0 πz) (sort2d y (some πx) (some πz))
+      (w.map (sort2d · (some πx) (some πz))) = core2dArgs core x z y w := by
+    unfold core2dArgs
+    have ew : (w.map (sort2d · (some πx) (some πz))).map
+          (sort2d · (some (argsort (takeL x 0 πx))) (some (argsort (takeL z 0 πz)))) =
+        w.map (sort2d · (some (argsort x)) (some (argsort z))) := by
+      cases w with
+      | none => rfl
+      | some u =>
+        simp only [Option.map_some]
+        rw [sort2d_comp _ _ _ _ _ hσx'lt hσz'lt, keyx, keyz]
+    rw [ew, sort2d_comp _ _ _ _ _ hσx'lt hσz'lt, takeL_takeL _ _ _ _ hσx'lt,
+      takeL_takeL _ _ _ _ hσz'lt, keyx, keyz]
+  have einvx : invertedSort (argsort (takeL x 0 πx)) = takeL (invertedSort (argsort x)) 0 πx :=
+    invertedSort_comp _ _ πx x.length (argsort_perm x) (hπxl ▸ hσx') hπx keyx
+  have einvz : invertedSort (argsort (takeL z 0 πz)) = takeL (invertedSort (argsort z)) 0 πz :=
+    invertedSort_comp _ _ πz z.length (argsort_perm z) (hπzl ▸ hσz') hπz keyz
+  have hπxlt : ∀ i ∈ πx, i < (invertedSort (argsort x)).length := by
+    rw [invertedSort_length, perm_range_length (argsort_perm x)]
+    exact perm_range_lt hπx
+  have hπzlt : ∀ i ∈ πz, i < (invertedSort (argsort z)).length := by
+    rw [invertedSort_length, perm_range_length (argsort_perm z)]
+    exact perm_range_lt hπz
+  rw [eargs, einvx, einvz]
+  simp only []
+  rw [sort2d_comp _ _ _ _ _ hπxlt hπzlt, List.map_map]
+  congr 1
+  apply List.map_congr_left
+  intro a _
+  exact (sort2d_comp _ _ _ _ _ hπxlt hπzlt).symm
 
 end PbVerif.Lemmas
